@@ -163,7 +163,7 @@ Proof.
   intros Ht Hg Hne Hx. unfold kaplan_wald. cbv zeta.
   set (fs := map (fun x => (1 - g) * x / t + g) xs).
   assert (Efs : map (fun x => Fin ((1 - g) * x / t + g)) xs = map Fin fs) by (unfold fs; now rewrite map_map).
-  rewrite Efs.
+  rewrite Efs. rewrite (absorb_zero_fin fs 1 false) by discriminate.
   set (hist := xcumprod (Fin 1) (map Fin fs)).
   assert (Hnn : Forall nn_term hist).
   { apply xcumprod_fin_nonneg; [lra|]. unfold fs. apply Forall_map. eapply Forall_impl; [|exact Hx].
@@ -223,6 +223,52 @@ Proof.
   induction l as [|a l IH]; intros acc Ha Hl; [constructor|]. inversion Hl; subst.
   cbn [xcumprod]. constructor; [now apply good_xmul|]. apply IH; auto. now apply good_xmul.
 Qed.
+(* the absorbing rule of kaplan_markov (p_history[np.cumsum(np.isinf(factors)) > 0] = np.inf) is invisible on an
+   exact product of positive or infinite factors: once a factor is +inf the product is +inf *)
+Lemma xmul_pinf_l b : good_term b -> xred (xmul PInf b) = PInf.
+Proof. intros [Eb|[q [Eb Hq]]]; subst; cbn [xmul xred xsgn]; [reflexivity|]. now rewrite inf_of_sign_pos1. Qed.
+Lemma xmul_pinf_r a : good_term a -> xred (xmul a PInf) = PInf.
+Proof. intros [Ea|[p [Ea Hp]]]; subst; cbn [xmul xred xsgn]; [reflexivity|]. now rewrite inf_of_sign_pos2. Qed.
+Lemma good_inf_is_pinf f : good_term f -> xis_inf f = true -> f = PInf.
+Proof. intros [E|[q [E _]]] H; subst; [reflexivity|discriminate]. Qed.
+Lemma absorb_inf_good : forall fs acc seen, good_term acc -> Forall good_term fs -> (seen = true -> acc = PInf) ->
+  absorb xis_inf PInf seen fs (xcumprod acc fs) = xcumprod acc fs.
+Proof.
+  induction fs as [|f fr IH]; intros acc seen Ha Hf Hs; [reflexivity|]. inversion Hf as [|f0 l0 Hf0 Hfr]; subst.
+  cbn [xcumprod absorb].
+  assert (E : seen || xis_inf f = true -> xred (xmul acc f) = PInf).
+  { intro H. destruct seen; cbn [orb] in H.
+    - rewrite (Hs eq_refl). now apply xmul_pinf_l.
+    - rewrite (good_inf_is_pinf f Hf0 H). now apply xmul_pinf_r. }
+  f_equal.
+  - destruct (seen || xis_inf f) eqn:Es; [now rewrite E|reflexivity].
+  - apply IH; auto. now apply good_xmul.
+Qed.
+Lemma km_factors_good g t xs : 0 < t + g -> Forall (fun x => 0 <= x + g) xs ->
+  Forall good_term (map (fun x => xdiv (Fin (t + g)) (Fin (x + g))) xs).
+Proof.
+  intros Htg Hx. apply Forall_map. eapply Forall_impl; [|exact Hx]. intros x H0. cbv beta in H0 |- *. cbn [xdiv].
+  destruct (Qeq_bool (x + g) 0) eqn:E.
+  - left. apply inf_of_sign_pos. lra.
+  - right. exists ((t + g) / (x + g)). split; auto. apply Qeq_bool_false in E.
+    apply div_pos; [lra|]. destruct (Qle_lt_or_eq 0 (x + g)); [lra|auto|]. exfalso. apply E. symmetry. auto.
+Qed.
+Lemma km_absorb_id g t xs : 0 < t + g -> Forall (fun x => 0 <= x + g) xs ->
+  absorb xis_inf PInf false (map (fun x => xdiv (Fin (t + g)) (Fin (x + g))) xs)
+         (xcumprod (Fin 1) (map (fun x => xdiv (Fin (t + g)) (Fin (x + g))) xs))
+  = xcumprod (Fin 1) (map (fun x => xdiv (Fin (t + g)) (Fin (x + g))) xs).
+Proof.
+  intros Htg Hx. apply absorb_inf_good; [right; exists 1; split; auto; lra | now apply km_factors_good | discriminate].
+Qed.
+Lemma kw_absorb_id g t xs :
+  absorb xis_zero (Fin 0) false (map (fun x => Fin ((1 - g) * x / t + g)) xs)
+         (xcumprod (Fin 1) (map (fun x => Fin ((1 - g) * x / t + g)) xs))
+  = xcumprod (Fin 1) (map (fun x => Fin ((1 - g) * x / t + g)) xs).
+Proof.
+  assert (Efs : map (fun x => Fin ((1 - g) * x / t + g)) xs = map Fin (map (fun x => (1 - g) * x / t + g) xs))
+    by now rewrite map_map.
+  rewrite Efs. apply absorb_zero_fin. discriminate.
+Qed.
 Lemma cap1_unit h : good_term h -> unit_x (cap1 h).
 Proof.
   intros [E|[q [E Hq]]]; subst; unfold cap1; cbn.
@@ -261,14 +307,16 @@ Theorem kaplan_markov_wellformed g ro t xs :
   kaplan_wf ro (kaplan_markov g ro t xs) (length xs).
 Proof.
   intros Ht Hg Hne Hx. unfold kaplan_markov. cbv zeta.
-  set (hist := xcumprod (Fin 1) (map (fun x => xdiv (Fin (t + g)) (Fin (x + g))) xs)).
-  assert (Hgood : Forall good_term hist).
-  { apply xcumprod_good; [right; exists 1; split; auto; lra|].
-    apply Forall_map. eapply Forall_impl; [|exact Hx]. intros x H0. cbv beta in H0 |- *. cbn [xdiv].
+  assert (Hfs : Forall good_term (map (fun x => xdiv (Fin (t + g)) (Fin (x + g))) xs)).
+  { apply Forall_map. eapply Forall_impl; [|exact Hx]. intros x H0. cbv beta in H0 |- *. cbn [xdiv].
     destruct (Qeq_bool (x + g) 0) eqn:E.
     - left. apply inf_of_sign_pos. lra.
     - right. exists ((t + g) / (x + g)). split; auto. apply Qeq_bool_false in E.
       apply div_pos; [lra|]. destruct (Qle_lt_or_eq 0 (x + g)); [lra|auto|]. exfalso. apply E. symmetry. auto. }
+  rewrite (absorb_inf_good _ (Fin 1) false) by (auto; try discriminate; right; exists 1; split; auto; lra).
+  set (hist := xcumprod (Fin 1) (map (fun x => xdiv (Fin (t + g)) (Fin (x + g))) xs)).
+  assert (Hgood : Forall good_term hist).
+  { apply xcumprod_good; [right; exists 1; split; auto; lra|exact Hfs]. }
   assert (Hnn : Forall nn_term hist) by (eapply Forall_impl; [|exact Hgood]; apply good_nn).
   assert (Hlen : length hist = length xs) by (unfold hist; now rewrite xcumprod_length, map_length).
   assert (Hne' : hist <> []) by (intro E; rewrite E in Hlen; destruct xs; simpl in *; congruence).
@@ -299,19 +347,23 @@ Proof.
 Qed.
 
 (* ---------------- Kaplan-Kolmogorov (finite N, repaired) ---------------- *)
-Definition kk_terms_from (n : Z) (t' : Q) (s : Q * Z) (acc : Xq) (xgs : list Q) : list Xq :=
+Definition kk_terms_from (n : Z) (t' : Q) (s : Q * Z) (seen : bool) (acc : Xq) (xgs : list Q) : list Xq :=
   let ms := mscan (mu_out (Some n) t') sj_step s xgs in
-  map3 kk_override xgs ms (xcumprod acc (map2 kk_ratio xgs ms)).
+  let rs := map2 kk_ratio xgs ms in
+  map3 kk_override xgs ms (absorb xis_zero (Fin 0) seen rs (xcumprod acc rs)).
 
-Lemma kk_terms_nn n t' xgs : forall s acc,
+Lemma nn_absorbed (b : bool) tm : nn_term tm -> nn_term (if b then Fin 0 else tm).
+Proof. intro H. destruct b; auto. right. exists 0. split; auto. lra. Qed.
+
+Lemma kk_terms_nn n t' xgs : forall s seen acc,
   Forall (fun x => 0 <= x) xgs ->
   (snd s + Z.of_nat (length xgs) - 1 <= n)%Z ->
   ((exists q, acc = Fin q /\ 0 <= q) \/ qz n * t' - fst s < 0) ->
-  Forall nn_term (kk_terms_from n t' s acc xgs).
+  Forall nn_term (kk_terms_from n t' s seen acc xgs).
 Proof.
-  induction xgs as [|x xr IH]; intros s acc Hx HN Hst; [constructor|].
+  induction xgs as [|x xr IH]; intros s seen acc Hx HN Hst; [constructor|].
   inversion Hx as [|x0 l0 Hx0 Hxr]; subst.
-  unfold kk_terms_from. cbn [mscan map2 xcumprod map3].
+  unfold kk_terms_from. cbn [mscan map2 xcumprod absorb map3].
   change (mu_out (Some n) t' s) with (mu_at (Some n) t' (fst s) (snd s)).
   set (m := mu_at (Some n) t' (fst s) (snd s)).
   assert (Hjn : (snd s <= n)%Z) by (cbn [length] in HN; lia).
@@ -321,7 +373,8 @@ Proof.
   assert (HN' : (snd (sj_step s x) + Z.of_nat (length xr) - 1 <= n)%Z).
   { unfold sj_step; cbn [snd]. cbn [length] in HN. rewrite Nat2Z.inj_succ in HN. lia. }
   set (acc' := xred (xmul acc (kk_ratio x m))).
-  fold (kk_terms_from n t' (sj_step s x) acc' xr).
+  set (seen' := seen || xis_zero (kk_ratio x m)).
+  fold (kk_terms_from n t' (sj_step s x) seen' acc' xr).
   destruct Hst as [[q [Eacc Hq]]|Hdead].
   - subst acc.
     destruct (Qlt_bool m 0) eqn:Elt.
@@ -345,7 +398,7 @@ Proof.
            constructor.
            ++ unfold kk_override. assert (E0 : Qlt_bool m 0 = false) by (apply Qlt_bool_false; lra).
               assert (E2 : Qlt_bool 0 x = false) by (apply Qlt_bool_false; lra). rewrite E0, E2, andb_false_r. cbn [orb].
-              rewrite Eacc'. right. exists (Qred (q * 1)). split; auto. rewrite Qred_correct. lra.
+              apply nn_absorbed. rewrite Eacc'. right. exists (Qred (q * 1)). split; auto. rewrite Qred_correct. lra.
            ++ apply IH; auto. left. exists (Qred (q * 1)). split; auto. rewrite Qred_correct. lra.
       * apply Qeq_bool_false in Eeq. assert (Hm0 : 0 < m) by (destruct (Qle_lt_or_eq _ _ Elt); auto; exfalso; apply Eeq; symmetry; auto).
         assert (Eacc' : acc' = Fin (Qred (q * (x / m)))).
@@ -356,7 +409,7 @@ Proof.
         constructor.
         -- unfold kk_override. assert (E0 : Qlt_bool m 0 = false) by (apply Qlt_bool_false; lra).
            assert (E1 : Qeq_bool m 0 = false) by (now apply Qeq_bool_false). rewrite E0, E1. cbn [orb andb].
-           rewrite Eacc'. right. eexists; split; eauto.
+           apply nn_absorbed. rewrite Eacc'. right. eexists; split; eauto.
         -- apply IH; auto. left. eexists; split; eauto.
   - (* dead: m < 0 from here on *)
     assert (Hm0 : m < 0) by nra. constructor.
@@ -379,16 +432,17 @@ Proof.
   intros Hg Hne Hx HN. unfold kaplan_kolmogorov. cbv zeta.
   set (xg := map (fun x => x + g) xs).
   set (terms := map3 kk_override xg (mu_list (Some n) (t + g) xg)
-                     (xcumprod (Fin 1) (map2 kk_ratio xg (mu_list (Some n) (t + g) xg)))).
+                     (absorb xis_zero (Fin 0) false (map2 kk_ratio xg (mu_list (Some n) (t + g) xg))
+                             (xcumprod (Fin 1) (map2 kk_ratio xg (mu_list (Some n) (t + g) xg))))).
   assert (Hxg : Forall (fun x => 0 <= x) xg).
   { unfold xg. apply Forall_map. eapply Forall_impl; [|exact Hx]. intros x H0. cbv beta in *. lra. }
   assert (Hlxg : length xg = length xs) by (unfold xg; apply map_length).
   assert (Hnn : Forall nn_term terms).
-  { change terms with (kk_terms_from n (t + g) (0, 1%Z) (Fin 1) xg).
+  { change terms with (kk_terms_from n (t + g) (0, 1%Z) false (Fin 1) xg).
     apply kk_terms_nn; auto. cbn [snd]. lia. left. exists 1. split; auto. lra. }
   assert (Hlen : length terms = length xs).
   { unfold terms. rewrite map3_length3; auto; unfold mu_list; rewrite ?run_machine_length; auto.
-    rewrite xcumprod_length, map2_length; unfold mu_list; rewrite ?run_machine_length; auto. }
+    rewrite absorb_length by apply xcumprod_length. rewrite map2_length; unfold mu_list; rewrite ?run_machine_length; auto. }
   assert (Hne' : terms <> []) by (intro E; rewrite E in Hlen; destruct xs; simpl in *; congruence).
   fold pvr. unfold kaplan_wf; cbn [fst snd].
   split; [now rewrite map_length|].
